@@ -791,7 +791,7 @@ func admittedKinds(info *types.Info, cond ast.Expr, scope ast.Node) ([]string, b
 
 var ruleEvalOrder = &Rule{
 	ID:    "R-EVALORDER",
-	Doc:   "operands are evaluated left to right: in the evaluator function for each node kind the evaluation of grammar field i never follows that of field i+1; expression lists are evaluated by ascending index; the right operand of and/or is evaluated only on the edge where canShortCircuit is false, and canShortCircuit returns ¬left for and, left for or, false otherwise; a conditional block evaluates its condition before its block and the block only on the true edge",
+	Doc:   "operands are evaluated left to right: in the evaluator function for each node kind the evaluation of grammar field i never follows that of field i+1; expression lists are evaluated by ascending index; the right operand of and/or is evaluated only on the edge where the short-circuit decision (canShortCircuit, or the same computed in place) is false, and that decision is ¬left for and, left for or, false otherwise; a conditional block evaluates its condition before its block and the block only on the true edge",
 	Floor: 10,
 	Run:   runEvalOrder,
 }
